@@ -16,8 +16,8 @@
 //!     queried key can never witness absence, more than 256 side nodes never verify):
 //!       flip / remove / duplicate a proof element (every position for proofs of ≤ 16
 //!       elements; for longer ones the 3 positions at each end, the middle, every
-//!       non-placeholder element and its neighbours — thorough: every position on states
-//!       of depth ≤ 3), prepend / append a placeholder element,
+//!       non-placeholder element and its neighbours; every position on states of depth ≤ 1
+//!       (quick) / ≤ 2 (thorough)), prepend / append a placeholder element,
 //!       the proof for q used for every other query key q′ (inclusion: with every value),
 //!       the terminal replaced by a leaf claiming the queried key (every value), also with
 //!       an inclusion proof's side nodes,
@@ -27,8 +27,10 @@
 //!     Required: library verdict == recomputation verdict (accept ⇔ the recomputation
 //!     reaches the root), and SOUNDNESS against the reference map: an accepted inclusion
 //!     claim (k, v) has map[k] == v, an accepted exclusion claim for k has k ∉ map.
-//! Bound. quick: depth 3 over 8 keys (1,789 states) + the depth-4 states with reduced
-//!   mutation set; thorough: depth 5 over 10 keys.
+//! Bound. quick: depth 4 over 8 keys (7,459 states; positional and other-key mutations
+//!   on the 1,789 states of depth ≤ 3, all other claims on every state); thorough: depth 5
+//!   over 10 keys (81,922 states, every mutation everywhere). States checked after the time
+//!   budget ended get G1–G3 only and the run reports a cap.
 //! Oracle independence: reference root `vcore::oracle::smt_root`; recomputation and
 //!   soundness use only the reference map and sha2.
 
@@ -66,6 +68,7 @@ struct M {
     /// states deeper than this get only G1–G3 + the cheap (non-positional) mutations
     positional_depth: usize,
     samples: std::sync::atomic::AtomicU64,
+    late: std::sync::atomic::AtomicU64,
 }
 
 #[derive(Clone)]
@@ -210,6 +213,11 @@ impl M {
             return
         }
         let depth = hist.len();
+        // past the time budget: only G1–G3 on the remaining states, reported as a cap
+        let late = !ctx.replaying && ctx.out_of_time();
+        if late {
+            self.late.fetch_add(1, std::sync::atomic::Ordering::Relaxed);
+        }
         let positional = depth <= self.positional_depth;
         let all_pos = depth <= self.full_positions_depth;
         let mut briefs = Vec::new();
@@ -263,7 +271,10 @@ impl M {
                 }
             }
 
-            // ---- mutations. `claims(side)` re-asks the original question with other side nodes.
+            if late {
+                continue
+            }
+            // ---- mutations. `ask` re-asks the original question with other side nodes.
             let orig_leaf = match &p {
                 P::Excl(_, l) => l.clone(),
                 P::Incl(_) => None,
@@ -297,8 +308,8 @@ impl M {
             s.push(ZERO);
             ask(&mut j, "append-placeholder", &s);
 
-            // proof for q used for q'
-            for q2 in qs.iter().filter(|x| *x != q) {
+            // proof for q used for q' (states within the positional bound)
+            for q2 in qs.iter().filter(|x| positional && *x != q) {
                 match &p {
                     P::Incl(_) => {
                         for v in PROBE_VALUES {
@@ -412,7 +423,7 @@ fn explore(ctx: &Ctx) {
             "verifier verdicts are only compared for the listed claims; roots other than the tree's real root are not used",
         ]),
     );
-    let (nkeys, depth, positional_depth, full_positions_depth) = ctx.pick((8usize, 4usize, 3usize, 1usize), (10, 5, 5, 3));
+    let (nkeys, depth, positional_depth, full_positions_depth) = ctx.pick((8usize, 4usize, 3usize, 1usize), (10, 5, 5, 2));
     let keys = all_keys();
     ctx.set(
         "alphabet",
@@ -427,7 +438,7 @@ fn explore(ctx: &Ctx) {
     ctx.set(
         "mutation_bounds",
         json!({
-            "positional_mutations_on_states_up_to_depth": positional_depth,
+            "positional_and_other_key_mutations_on_states_up_to_depth": positional_depth,
             "all_positions_on_states_up_to_depth": full_positions_depth,
             "otherwise": "all positions for proofs of <=16 elements; else 3 at each end, the middle, every non-placeholder element and its neighbours",
         }),
@@ -437,8 +448,13 @@ fn explore(ctx: &Ctx) {
         full_positions_depth,
         positional_depth,
         samples: Default::default(),
+        late: Default::default(),
     };
     let st = bfs::bfs(&m, depth, 3_000_000, ctx);
+    let late = m.late.load(std::sync::atomic::Ordering::Relaxed);
+    if late > 0 {
+        ctx.cap(format!("time budget ended inside the last BFS level: {late} states got G1-G3 only (no mutations)"));
+    }
     ctx.set(
         "bfs",
         json!({"depth_bound": depth, "completed_depth": st.completed_depth, "states": st.states, "transitions": st.transitions, "per_depth": st.per_depth, "capped": st.capped}),
@@ -455,6 +471,7 @@ fn replay(case: &Value, ctx: &Ctx) {
         full_positions_depth: usize::MAX,
         positional_depth: usize::MAX,
         samples: std::sync::atomic::AtomicU64::new(u64::MAX / 2),
+        late: Default::default(),
     };
     bfs::replay_path(&m, &acts, ctx);
 }
